@@ -265,6 +265,15 @@ def check_report(res, base, ar, rec, acts, report, method, o, case):
         return
     names = {c: rec['cdict'][c]['name'] for c in rec['cids']}
     n = Fraction(rec['nballots'])
+    head = lines[:pos]
+    src, com = case.get('source'), case.get('comment') if case.get('source') is not None else None
+    if (src is not None) != any(x.startswith('Source: ') for x in head) or (src is not None and 'Source: %s' % src not in head):
+        res.fail('report-header', 'report-header|source|' + base, 'profile source %r, report header %r' % (src, [x for x in head if x.startswith('Source')]))
+    if (com is not None) != any(x.startswith('{') for x in head) or (com is not None and '{%s}' % com not in head):
+        res.fail('report-header', 'report-header|comment|' + base, 'profile comment %r not shown as {comment} in the report header' % (com,))
+    if rec.get('profile_source') != src or rec.get('profile_comment') != com:
+        res.fail('record-header', 'record-header|source|' + base, 'record source/comment %r/%r, file says %r/%r' %
+                 (rec.get('profile_source'), rec.get('profile_comment'), src, com))
     # body: one block per action, in order
     blocks = []
     cur = None
